@@ -1,5 +1,14 @@
-from props.common import run_bounded
+from props.common import run_bounded, verify_keys, add_obs
+from pv import obs_classes as C
+
+KEYS = ['parso.python.tree._StringComparisonMixin.__eq__', 'parso.python.tree._StringComparisonMixin.__hash__',
+        'parso.tree.Leaf.start_pos.setter', 'parso.tree.Leaf.start_pos']
 
 
 def run(report):
+    add_obs(report, C.tree_protocol_obligations)
+    verify_keys(report, KEYS)
+    report.assume("A-BUILTIN: eval(repr(x)) == x for str/int/tuple, pickle preserves slots, __dict__ and cycles",
+                  "the recursive text of _format_dump and the splice property of RefactoringNormalizer.visit are decided by "
+                  "the bounded stand-in, not by discharged VCs")
     run_bounded(report, ['stmt'])
